@@ -421,6 +421,7 @@ fn main() {
                         rep.add("obs_server_future_resolved", seen.server_future_resolved);
                         rep.add("obs_no_dispatch_after_completion_checks", seen.no_dispatch_after_checks);
                         rep.add("obs_late_clients_before_stop", seen.late_clients);
+                        rep.add("obs_worker_stall_scenarios", seen.stall_scenarios);
                         rep.add("obs_sigterm_runs", seen.signal_runs_term);
                         rep.add("obs_sigint_sigquit_runs", seen.signal_runs_forced);
                         rep.max("max_graceful_resolution_ms", seen.max_graceful_ms);
@@ -462,6 +463,7 @@ fn main() {
                         rep.add("obs_connections", seen.connections);
                         rep.add("obs_multi_service_scenarios", seen.multi_service_workers);
                         rep.add("obs_errors_while_other_pending", seen.errors_while_other_pending);
+                        rep.add("obs_failures_met_with_queued_connection", seen.quiet_failures);
                         rep.rule = "readiness scripts on a real server: 1..3 services (listeners) per worker x 1..2 workers x {Actix, Tokio}; 2..10 steps over {make instance (service, worker) Pending, make it Ready, readiness Err (re-created instance scripted Ready / Pending / failing again), connect a client to service l}, each step followed by an accept-thread ping; epilogue: all scripts cleared, every client must be served. \
                                     Oracle on the per-thread order of the scripted services' own events: every call is preceded (since the previous call / non-ready result) by Ready from every current instance of that worker; after Err from an instance the next instantiation on that thread is of the same service, happens before any call, and no service is re-created without an error; calls go to current instances; with one worker the calls of a service follow dispatch order; no client is lost or left unserved once everything is ready. Distinct = distinct (workers, services, runtime, op list).".into();
                         return Verdict::Held;
